@@ -2,12 +2,12 @@
 (* Table of the RLP decoder over all byte strings of length <= N over Alpha: one TLC state
    per input; the laws of Rlp.tla are invariants, and every state prints its table row. *)
 EXTENDS Rlp, Json
-CONSTANTS Alpha, N
+CONSTANTS Alpha, FirstAlpha, N          \* FirstAlpha: the bytes allowed in first position (Alpha elsewhere)
 VARIABLE b
 Boundary == {0, 1, 127, 128, 129, 130, 131, 183, 184, 185, 191, 192, 193, 194, 195, 247, 248, 249, 255}
 AllBytes == 0..255
 Init == b = << >>
-Next == Len(b) < N /\ \E a \in Alpha : b' = Append(b, a)
+Next == Len(b) < N /\ \E a \in (IF Len(b) = 0 THEN FirstAlpha ELSE Alpha) : b' = Append(b, a)
 Spec == Init /\ [][Next]_b
 \* one invariant: the laws hold for this input, and its table row is printed (decoders evaluated once)
 Judge == LET s == DecodeString(b)  l == DecodeList(b)  d == Deep(b) IN
